@@ -8,6 +8,8 @@
  *   ren <hexline> <order> <td> <lim>     all ren_* observables + dir_context/dir_reorder + the matcher trace
  *   shape <hexline> <xshape>             uc_shape / ren_translate of every character of the line
  *   wsweep <lo> <hi>                     width classes of every code point lo..hi
+ *   wclass <lo> <hi>                     the same function of every code point lo..hi, printed as maximal runs
+ *                                        "lo-hi:fields;" of code points with identical answers
  *   cssweep                              uc_cshape / can_join over letters x neighbour classes
  *   fasweep                              find_achar over all code points
  */
@@ -189,24 +191,53 @@ static void do_shape(char *hex, int shape)
 	free(s - 8);
 }
 
+/* the width-class answers for code point c, as text (without the code point) */
+static void wclass_of(long c, char *out)
+{
+	char b[16] = {0};
+	int n, wid = 0, i;
+	char *ph;
+	n = enc(c, b);
+	b[n] = 'A';
+	ph = ren_placeholder(b, &wid);
+	out += sprintf(out, "%d %d %d %d %d %d %d %d ", uc_isdw(c) != 0, uc_iszw(c) != 0, find(c, bchars, LEN(bchars)) != 0,
+		uc_wid(b), uc_isbell(b) != 0, uc_iscomb(b) != 0, ren_cwid(b, 0), ren_cwid(b, 5));
+	if (ph && *ph)
+		for (i = 0; ph[i] && i < 16; i++)
+			out += sprintf(out, "%02x", (unsigned char) ph[i]);
+	else
+		out += sprintf(out, ph ? "-" : "x");
+}
+
 static void do_wsweep(long lo, long hi)
 {
 	long c;
+	char buf[128];
 	for (c = lo; c <= hi; c++) {
-		char b[16] = {0};
-		int n, wid = 0;
-		char *ph;
-		n = enc(c, b);
-		b[n] = 'A';
-		ph = ren_placeholder(b, &wid);
-		printf("%ld %d %d %d %d %d %d %d %d ", c, uc_isdw(c) != 0, uc_iszw(c) != 0, find(c, bchars, LEN(bchars)) != 0,
-			uc_wid(b), uc_isbell(b) != 0, uc_iscomb(b) != 0, ren_cwid(b, 0), ren_cwid(b, 5));
-		if (ph)
-			pu_hex(ph, strlen(ph));
-		else
-			printf("x");
-		printf("\n");
+		wclass_of(c, buf);
+		printf("%ld %s\n", c, buf);
 	}
+}
+
+/* every code point lo..hi is evaluated; equal neighbours are printed as one run */
+static void do_wclass(long lo, long hi)
+{
+	long c, start = lo;
+	char cur[128], buf[128];
+	if (lo > hi) {
+		printf("-\n");
+		return;
+	}
+	wclass_of(lo, cur);
+	for (c = lo + 1; c <= hi; c++) {
+		wclass_of(c, buf);
+		if (strcmp(buf, cur)) {
+			printf("%ld-%ld:%s;", start, c - 1, cur);
+			start = c;
+			strcpy(cur, buf);
+		}
+	}
+	printf("%ld-%ld:%s;\n", start, hi, cur);
 }
 
 static int cs_set[512], cs_n, nb_set[128], nb_n;
@@ -276,6 +307,8 @@ int main(void)
 			do_shape(w[1], atoi(w[2]));
 		else if (n == 3 && !strcmp(w[0], "wsweep"))
 			do_wsweep(atol(w[1]), atol(w[2]));
+		else if (n == 3 && !strcmp(w[0], "wclass"))
+			do_wclass(atol(w[1]), atol(w[2]));
 		else if (n == 1 && !strcmp(w[0], "cssweep"))
 			do_cssweep();
 		else if (n == 1 && !strcmp(w[0], "fasweep"))
